@@ -294,6 +294,137 @@ def run(ck, F):
     import c03 as _c03
     _c03.arena_bounds(ck, F, prefix='C19')
 
+    # reads of fixed tables stay inside them
+    R9 = ck.rule('C19.table-index-bounded', 'every subscript of an array of fixed extent N in the library (built-in arrays and std::array; '
+                 'tables of constants, the arms of a tree node) is a constant below N, a value of an enumeration all of whose enumerators '
+                 'are below N, or the element of a range-for: an index computed from data (a bit position, a count) without a bound reads '
+                 'past the table', floor=5)
+    import re as _re
+    FLEX = {('ipr::util::string', 'data'): 'the inline bytes of a string header continue into the following arena granules by design; '
+            'their bound is what C19.arena-bounds / C19.arena-writes-in-bounds decide'}
+
+    def _strip(x):
+        while isinstance(x, dict) and x.get('k') == 'cast':
+            x = x.get('e')
+        return x or {}
+
+    def _extent(t):
+        m = _re.search(r'\[(\d+)\]\s*$', (t or '').replace('const ', '').strip())
+        if m:
+            return int(m.group(1))
+        m = _re.match(r'(?:const )?std::array<.*,\s*(\d+)>\s*&?$', (t or '').strip())
+        return int(m.group(1)) if m else None
+
+    def _enum_of(x):
+        # the enumeration whose value the index is: the expression itself, or the operand of rep() / a cast
+        x0 = x
+        for _ in range(4):
+            t = (x0.get('t') or '').replace('const ', '').strip()
+            if t not in F.enums and t.replace('(anonymous namespace)', '(anon)') in F.enums:
+                t = t.replace('(anonymous namespace)', '(anon)')
+            if t in F.enums:
+                return t
+            if x0.get('k') == 'cast':
+                x0 = x0.get('e') or {}
+            elif x0.get('k') == 'call' and len(x0.get('args') or []) == 1 and (x0.get('callee') or {}).get('name') in ('rep', 'to_underlying'):
+                x0 = x0['args'][0]
+            else:
+                break
+        return None
+    def _bare(x):
+        if isinstance(x, dict):
+            if x.get('k') == 'cast':
+                return _bare(x.get('e'))
+            return tuple(sorted((k, _bare(v)) for k, v in x.items() if k not in ('ln', 't', 'col')))
+        if isinstance(x, list):
+            return tuple(_bare(v) for v in x)
+        return x
+
+    def _conjuncts(c):
+        c = _strip(c)
+        if c.get('k') == 'binop' and c.get('op') in ('&&', 'and'):
+            return _conjuncts(c.get('l')) + _conjuncts(c.get('r'))
+        return [c]
+
+    def _guarded(idx, base, N, guards):
+        # a test `idx < bound` (bound a constant <= N, or the size of the table itself) that holds where the subscript is evaluated
+        bi, bb = _bare(idx), _bare(base)
+        for g in guards:
+            for c in _conjuncts(g):
+                if c.get('k') != 'binop' or c.get('op') not in ('<', '<=', '>', '>='):
+                    continue
+                lo, hi, strict = (c.get('l'), c.get('r'), c['op'] == '<') if c['op'] in ('<', '<=') else (c.get('r'), c.get('l'), c['op'] == '>')
+                if _bare(lo) != bi:
+                    continue
+                h = _strip(hi)
+                cvh = h.get('cv', (hi or {}).get('cv'))
+                if cvh is not None and int(cvh) + (0 if strict else 1) <= N:
+                    return True
+                if strict and h.get('k') == 'call' and (h.get('callee') or {}).get('name') in ('size', 'ssize') \
+                        and bb in (_bare(h.get('obj')), _bare((h.get('args') or [None])[0])):
+                    return True
+        return False
+
+    def _sites(n, guards):
+        # (node, conditions known to hold there): then-branches and loop bodies carry their condition
+        if isinstance(n, list):
+            for x in n:
+                yield from _sites(x, guards)
+            return
+        if not isinstance(n, dict):
+            return
+        yield n, guards
+        k = n.get('k')
+        for key, v in n.items():
+            if key in ('then', 'b') and k in ('if', 'for', 'while') and n.get('c') is not None and (key == 'then' or k != 'if'):
+                yield from _sites(v, guards + [n['c']])
+            elif key == 'r' and k == 'binop' and n.get('op') in ('&&', 'and'):
+                yield from _sites(v, guards + [n.get('l')])
+            elif key == 'then' and k == 'cond' or (key in ('a', 'then') and k in ('condop', 'conditional')):
+                yield from _sites(v, guards + [n.get('c')])
+            elif isinstance(v, (dict, list)):
+                yield from _sites(v, guards)
+    seen_sites = set()
+    for f in sorted(F.fn.values(), key=lambda f: f['id']):
+        if not (f.get('loc') or '').startswith(('src/', 'include/ipr')):
+            continue
+        for n, guards in _sites(f.get('body'), []):
+            base = idx = None
+            if n.get('k') == 'index':
+                base, idx = n.get('base'), n.get('idx')
+            elif n.get('k') == 'call' and (n.get('callee') or {}).get('name') == 'operator[]' and (n.get('callee') or {}).get('repo') is False \
+                    and (n['callee'].get('parent') or '').startswith('std::array<') and n.get('args'):
+                base, idx = n.get('obj'), n['args'][0]
+            if base is None:
+                continue
+            b = _strip(base)
+            N = _extent(b.get('t')) or _extent((base or {}).get('t'))
+            site = (f['loc'].split(':')[0], n.get('ln'), b.get('name'), str(_strip(idx).get('cv') or _strip(idx).get('name') or _strip(idx).get('k')))
+            if N is None or site in seen_sites:
+                continue        # a pointer subscript: the extent is not in the type (not judged here)
+            seen_sites.add(site)
+            owner = (b.get('cls') or '').replace('const ', '')
+            if (owner, b.get('name')) in FLEX or any((c, b.get('name')) in FLEX for c in F.rec if b.get('k') == 'member' and f.get('parent') == c):
+                ck.note(f'{site[0]}:{site[1]} {b.get("name")}[...]: ' + FLEX.get((owner, b.get('name')), FLEX.get((f.get('parent'), b.get('name')), '')))
+                continue
+            i = idx or {}
+            i0 = _strip(i)
+            ok, why = False, 'computed from data, no bound'
+            if 'cv' in i or 'cv' in i0:
+                v = int(i.get('cv', i0.get('cv')))
+                ok, why = 0 <= v < N, f'constant {v}'
+            else:
+                en = _enum_of(i)
+                if en is not None:
+                    vals = [int(e['value']) for e in F.enums[en].get('enumerators', [])]
+                    ok = bool(vals) and all(0 <= v < N for v in vals)
+                    why = f'value of {contracts.short(en)} (enumerators {min(vals) if vals else "-"}..{max(vals) if vals else "-"})'
+                elif _guarded(idx, base, N, guards):
+                    ok, why = True, 'tested against the extent on the way'
+            ck.check(R9, f'{site[0]}:{site[1]} {b.get("name") or "?"}[{site[3]}]', ok,
+                     f'{f["id"]} (line {n.get("ln")}): subscript of `{b.get("name")}` (extent {N}) by an index that is {why}: nothing keeps it '
+                     f'below {N}', loc=f['loc'], fn=f['id'])
+
     # the pool chain after an allocation: nothing that was reachable is lost, everything new is reachable
     R7 = ck.rule('C19.chain-preserved', 'on every path of arena::allocate (and of the constructor) the chain mem -> previous -> ... '
                  'reaches every block just obtained from operator new, still reaches the old head, and ends in the old tail: '
